@@ -2,7 +2,7 @@
    SQL text.  Text is a list of characters.  Float literals are printed with
    f64 Display, which the model does not cover ([SqlUnmod]). *)
 From Coq Require Import ZArith List Bool.
-From Rscel Require Import Base.Prims Base.F64 Base.Text Model.Value Model.Lexer Model.Ast.
+From Rscel Require Import Base.Prims Base.F64 Base.Text Base.FloatPrint Model.Value Model.Lexer Model.Ast.
 Import ListNotations.
 Import Coq.Strings.String.StringSyntax.
 Open Scope Z_scope.
@@ -77,7 +77,7 @@ Definition lit_sql (l : lit) : sqlres :=
   | LNull => SqlOk #"NULL"
   | LInt z => SqlOk (dec_of_Z z)
   | LUInt z => SqlOk (dec_of_Z z)
-  | LFloat _ => SqlUnmod
+  | LFloat f => match print_f64 f with Some t => SqlOk t | None => SqlUnmod end
   | LFStr _ => SqlUnsupported
   | LStr s => SqlOk (sql_quote s)
   | LBytes _ => SqlUnsupported
